@@ -9,8 +9,16 @@ MANIFEST = dict(
    design="DESIGN.md §5 C19; notes/C19.md")
 
 MODULES = ["Gozod.Proofs.C19"]
-THEOREMS = [
-]
+THEOREMS = ["Gozod.C19." + t for t in [
+    "c19_flatten_count", "c19_flatten_form", "c19_flatten_field", "c19_flatten_place",
+    "c19_tree_count", "c19_tree_place",
+    "formatError_eq", "c19_format_count_partial", "c19_format_count_full_false",
+    "c19_format_place_partial", "c19_format_place_full_false",
+    "c19_prettify_count", "c19_prettify_place", "c19_dotpath_injective_full_false", "dotpath_empty_key",
+    "c19_nonempty", "c19_nonempty_format_full_false",
+    "legacy_format_drops_union", "legacy_format_drops_element", "legacy_format_drops_unknown_code",
+    "legacy_format_misfiles_nested", "legacy_dotpath_conflates", "legacy_nonempty_false",
+]]
 
 PARTS = ("flat", "tree", "fmt", "pretty")
 
@@ -62,16 +70,18 @@ def features(op):
     return f
 
 def key(op, impl, M, S):
-    k = key0(op, impl, M, S)
-    # a listed finding is only re-confirmed when the model mirrors the implementation on the case
-    return k if impl == M else k + ":model-differs"
-
-def key0(op, impl, M, S):
-    a, s = parts(impl), parts(S or M)
+    """failure class = first report on which the implementation differs from the oracle; reports on which
+    it also differs from the model (i.e. not a mirrored, listed defect) are named first."""
+    a, s, m = parts(impl), parts(S or M), parts(M)
     bad = [p for p in PARTS if a.get(p) != s.get(p)]
+    drift = [p for p in PARTS if a.get(p) != m.get(p)]
+    if drift:
+        return key1(op, a, drift[0]) + ":model-differs"
     if not bad:
         return "other"
-    p = bad[0]
+    return key1(op, a, bad[0])
+
+def key1(op, a, p):
     if a.get(p, "").startswith("panic"):
         return p + ":panic"
     f = features(op)
